@@ -13,13 +13,23 @@ Proved here, for ALL inputs, all split points and all chunkings (no bounds):
   * `window_inv`, `no_input_lost`     the decode-buffer bookkeeping (fetch with any chunk size, advancing, invalidating)
                                       keeps  stream = first InputOffset bytes ++ UnreadBuffer ++ not-yet-read.
 
-Not proved (kept as `def … : Prop`, validated by the harness only): the simulation of the whole decoder
-(`sim_full`), `value_span_full`, `fault_stutter_full`.
+  * `sim_tokens`, `sim_tokens_events`  the streaming DECODER model (Model/Stream.lean: Window + refill loops + the
+                                      token-level control flow of ReadToken, state machine, namespaces) returns for
+                                      every chunking, call by call, what the whole-buffer model of slice C01
+                                      (Model/TokenLoop.lean) returns: kinds, spans, absolute offsets, error class+offset;
+  * `fault_stutter`, `fault_stutter_run`  a transient fault is returned without moving the decoder, and the transcript
+                                      without the faulted calls is the fault-free transcript, for any reader;
+  * `value_span_tokens`               the bytes of a string/number token are exactly input[start:stop].
+
+Not proved (kept as `def … : Prop`, validated by the harness only): the simulation for scripts that also use
+ReadValue / SkipValue / PeekKind, StackPointer and error pointers (`sim_full`), `value_span_full` for ReadValue,
+`fault_stutter_full` for ReadValue and PeekKind.
 -/
 import JsonV.Lemmas.ResumeNum
 import JsonV.Lemmas.ResumeStr
 import JsonV.Lemmas.ResumeLit
 import JsonV.Lemmas.ResumeWindow
+import JsonV.Lemmas.ResumeStreamRun
 
 namespace JsonV.Props.C05
 open JsonV JsonV.Model JsonV.Model.Resume JsonV.Model.Window
@@ -174,6 +184,85 @@ theorem window_inv_exact (stream : Bytes) (ops : List Op) (hno : ∀ op ∈ ops,
 
 example : ∀ op ∈ [Op.fetch 3, Op.advance 1 2, Op.fetch 1], op.isInvalidate = false := by decide
 
+/-! ## The streaming decoder: ReadToken sequences (Model/Stream.lean against Model/TokenLoop.lean)
+
+The streaming model = the Window + the four refill loops over an adversarial reader (`Event`: chunk, possibly empty /
+fault / eof) + the token-level control flow of ReadToken; `Stream.run o n s` are the results of `n` consecutive
+ReadToken calls (continuing after errors), `Stream.wholeRun o n ws` the same calls of the whole-buffer model
+`TokenLoop.readToken` (slice C01), in one vocabulary: `tok kind start stop` with ABSOLUTE offsets (`stop` is
+`InputOffset` afterwards), `err offset class` (the offset `wrapSyntacticError` reports, `baseOffset + pos`), `fault`.
+The model is tied to the real Decoder by correspondence (`dec stream`, recorded reader events). -/
+
+open JsonV.Model.Stream in
+/-- `sim_tokens`.  For EVERY chunking `cs` of the input and every number of calls, the ReadToken calls of the
+streaming decoder return, call by call, exactly what they return on the whole input in one piece: token kinds,
+token spans, absolute offsets, error classes and error offsets (and, as the simulation relation `Sim` is kept, the
+same state machine and namespaces). -/
+theorem sim_tokens (o : Validate.VOpts) (n : Nat) (cs : List Bytes) :
+    Stream.run o n (Stream.init (cs.map Event.chunk)) = Stream.wholeRun o n { r := cs.flatten } := by
+  have h := run_sim o n (Stream.init (cs.map Event.chunk)) { r := avail (cs.map Event.chunk) }
+    (sim_init _) (noFault_chunks cs)
+  rw [avail_chunks] at h
+  exact h
+
+open JsonV.Model.Stream in
+/-- the same for any reader that does not fault: empty reads and the position of `eof` do not matter either -/
+theorem sim_tokens_events (o : Validate.VOpts) (n : Nat) (es : List Event) (h : NoFault es) :
+    Stream.run o n (Stream.init es) = Stream.wholeRun o n { r := avail es } :=
+  run_sim o n _ _ (sim_init es) h
+
+open JsonV.Model.Stream in
+/-- consequently two chunkings of the same bytes cannot be told apart by any sequence of ReadToken calls -/
+theorem sim_tokens_any_two (o : Validate.VOpts) (n : Nat) (cs ds : List Bytes) (h : cs.flatten = ds.flatten) :
+    Stream.run o n (Stream.init (cs.map Event.chunk)) = Stream.run o n (Stream.init (ds.map Event.chunk)) := by
+  rw [sim_tokens, sim_tokens, h]
+
+open JsonV.Model.Stream in
+example : NoFault [Event.chunk [0x5B], Event.chunk [], Event.chunk [0x31, 0x5D], Event.eof] := by
+  intro h; simp at h
+
+open JsonV.Model.Stream in
+/-- `fault_stutter`, one call: from decoders at the same point (`Sim`), a ReadToken that returns the transient error
+leaves the streaming decoder at the same point as before (same state machine and namespaces, same InputOffset, same
+remaining input: buffered ++ still to come), with strictly fewer reader events left — so the calls that follow
+behave as if the fault had not occurred (`fault_stutter_run`). -/
+theorem fault_stutter (o : Validate.VOpts) (s : SState) (ws : WState) (h : Sim s ws)
+    (hf : (Stream.readToken o s).1 = .fault) :
+    Sim (Stream.readToken o s).2 ws ∧ (Stream.readToken o s).2.events.length < s.events.length := by
+  rcases readToken_sim o s ws h with ⟨_, hs, hl⟩ | ⟨ho, _, _⟩
+  · exact ⟨hs, hl⟩
+  · rw [hf] at ho; exact absurd ho.symm (wholeRead_ne_fault o ws)
+
+open JsonV.Model.Stream in
+/-- `fault_stutter`, whole runs: for ANY reader (faults anywhere, any number of them), removing the calls that
+returned the transient error from the transcript leaves exactly the transcript of the decoder over the whole input. -/
+theorem fault_stutter_run (o : Validate.VOpts) (n : Nat) (es : List Event) :
+    (Stream.run o n (Stream.init es)).filter (fun x => x != .fault) =
+      Stream.wholeRun o ((Stream.run o n (Stream.init es)).filter (fun x => x != .fault)).length { r := avail es } :=
+  run_stutter o n _ _ (sim_init es)
+
+open JsonV.Model.Stream in
+/-- a fault does occur in the model: `[1` then a fault: the second call returns it, the third succeeds -/
+example : Stream.run {} 3 (Stream.init [Event.chunk [0x5B], Event.fault, Event.chunk [0x31, 0x5D]]) =
+    [.tok 0x5B 0 1, .fault, .tok 0x30 1 2] := by decide
+
+open JsonV.Model.Stream in
+/-- `value_span` for tokens: a token reported at absolute offsets `[a, b)` lies inside the input, `InputOffset` is
+`b` afterwards, and for strings and numbers — the tokens that carry bytes — the bytes the decoder hands out,
+`d.buf[d.prevStart:d.prevEnd]`, are exactly `input[a:b]` (`input` = what was consumed so far ++ buffered ++ to come). -/
+theorem value_span_tokens (o : Validate.VOpts) (s : SState) (ws : WState) (h : Sim s ws) (pre : Bytes)
+    (hpre : pre.length = ws.off) (k : UInt8) (a b : Nat) (ht : (Stream.readToken o s).1 = .tok k a b) :
+    ws.off ≤ a ∧ a ≤ b ∧ b ≤ (pre ++ ws.r).length ∧
+    (Stream.readToken o s).2.w.inputOffset = b ∧
+    ((k == 0x22 || k == 0x30) = true →
+      (Stream.readToken o s).2.w.baseOffset + (Stream.readToken o s).2.w.prevStart = a ∧
+      (Stream.readToken o s).2.prevBytes = ((pre ++ ws.r).drop a).take (b - a)) :=
+  readToken_span o s ws h pre hpre k a b ht
+
+open JsonV.Model.Stream in
+/-- `Sim` is met initially (so every reachable pair of states satisfies it, by `readToken_sim`) -/
+example (es : List Event) : Sim (Stream.init es) { r := avail es } := sim_init es
+
 /-! ## Full statements that are NOT proved (validated by the harness: transcripts over all readers) -/
 
 inductive Call where
@@ -199,7 +288,10 @@ inductive Event where
 structure DecoderModel where
   run : List Event → List Call → List Obs
 
-/-- `sim_full`: the transcript of any script does not depend on the chunking of the input. -/
+/-- `sim_full`: the transcript of any script over ALL FOUR calls (ReadToken, ReadValue, SkipValue, PeekKind, with the
+peek cache, `d.Names`/StackPointer and error pointers) does not depend on the chunking of the input.  Proved above
+for ReadToken sequences (`sim_tokens`); ReadValue needs a streaming model of consumeValue/consumeObject/consumeArray
+(the whole-buffer one is Model/Validate.lean), SkipValue is a ReadToken loop or a ReadValue. -/
 def sim_full (M : DecoderModel) : Prop :=
   ∀ (chunks : List Bytes) (calls : List Call),
     M.run (chunks.map Event.chunk) calls = M.run [Event.chunk chunks.flatten] calls
